@@ -4,6 +4,7 @@ import (
 	"encoding/json"
 	"os"
 	"path/filepath"
+	"sort"
 	"strconv"
 
 	"verifharness/internal/core"
@@ -74,13 +75,18 @@ func (g *hgen) run() opIn {
 	case k < 11:
 	case k < 13:
 		o.Force = true
-	case k < 16: // All on a subset of the entrypoints
+	case k < 16: // All on a subset of the entrypoints - every second time an importer without its imports; with and without Force
 		o.Entry = g.subset()
+		if g.r.Bool() {
+			o.Entry = g.importerOnly()
+		}
+		o.Force = g.r.Chance(40)
 	case k < 18: // without All: direct packages only, gengo.sum not used
 		o.All = false
 		if g.r.Bool() {
 			o.Entry = g.subset()
 		}
+		o.Force = g.r.Chance(25)
 	default:
 		o.Force = g.r.Chance(20)
 	}
@@ -89,6 +95,15 @@ func (g *hgen) run() opIn {
 		o.Fail = &f
 	}
 	return o
+}
+
+func (g *hgen) hasEdge() bool {
+	for _, p := range g.in.Pkgs {
+		if len(p.Imports) > 0 {
+			return true
+		}
+	}
+	return false
 }
 
 func (g *hgen) subset() []int {
@@ -101,6 +116,33 @@ func (g *hgen) subset() []int {
 	if len(e) == 0 {
 		e = []int{g.pkg()}
 	}
+	return e
+}
+
+// importerOnly: entrypoints that leave out at least one package they import - it is in the run (All) without
+// having been asked for; falls back to a random subset when the module has no import edge
+func (g *hgen) importerOnly() []int {
+	var importers []int
+	for i, p := range g.in.Pkgs {
+		if len(p.Imports) > 0 {
+			importers = append(importers, i)
+		}
+	}
+	if len(importers) == 0 {
+		return g.subset()
+	}
+	i := core.Pick(g.r, importers)
+	imported := map[int]bool{}
+	for _, j := range g.in.Pkgs[i].Imports {
+		imported[j] = true
+	}
+	e := []int{i}
+	for j := range g.in.Pkgs {
+		if j != i && !imported[j] && g.r.Chance(25) {
+			e = append(e, j)
+		}
+	}
+	sort.Ints(e)
 	return e
 }
 
@@ -119,9 +161,40 @@ func (g *hgen) module() {
 	}
 }
 
-// history of the given kind: "mixed" | "malformed" (damage to gengo.sum dominates) | "converge"
+// history of the given kind: "mixed" | "malformed" (damage to gengo.sum dominates) | "converge" |
+// "forcesubset" (a module with import edges is brought to rest, then Force+All runs on importers only, between edits)
 func (g *hgen) history(kind string) json.RawMessage {
 	g.module()
+	if kind == "forcesubset" {
+		for tries := 0; tries < 20 && !g.hasEdge(); tries++ {
+			g.module()
+		}
+		if !g.hasEdge() && len(g.in.Pkgs) > 1 {
+			g.in.Pkgs[0].Imports = []int{len(g.in.Pkgs) - 1}
+		}
+		plain := opIn{K: "run", All: true}
+		ops := []opIn{plain, plain}
+		if g.r.Chance(70) {
+			ops = append(ops, plain)
+		}
+		for k := 1 + g.r.Intn(3); k > 0; k-- {
+			if g.r.Chance(40) {
+				ops = append(ops, g.edit())
+			}
+			o := opIn{K: "run", All: true, Force: !g.r.Chance(15), Entry: g.importerOnly()}
+			if g.r.Chance(10) {
+				f := g.pkg()
+				o.Fail = &f
+			}
+			ops = append(ops, o)
+			if g.r.Chance(50) {
+				ops = append(ops, plain)
+			}
+		}
+		g.in.Ops = ops
+		b, _ := json.Marshal(g.in)
+		return b
+	}
 	n := 3 + g.r.Intn(8)
 	var ops []opIn
 	if g.r.Chance(70) {
@@ -177,6 +250,14 @@ func fixedCases() []json.RawMessage {
 				{K: "run", All: true, Fail: &one}, run, {K: "run", All: true, Entry: []int{0}}, run, {K: "run", Entry: []int{2}}, run, run}},
 		{Mod: "example.com/m", Pkgs: []pkgDecl{{Dir: "a"}, {Dir: "b"}},
 			Ops: []opIn{run, run, run, {K: "delsum"}, run, run, {K: "corrupt", Mode: "dropfirst"}, run, run, {K: "corrupt", Mode: "garbage"}, run, run, {K: "block"}, run, {K: "delsum"}, run, run, run}},
+		// Force with All on a SUBSET of the entrypoints: b is in the run through a's import only, its directory hash equals
+		// the recorded one - Force makes it regenerate all the same (seeded change C08-f: Force only for the packages asked for)
+		{Mod: "example.com/m", Pkgs: []pkgDecl{{Dir: "a", Imports: []int{1}}, {Dir: "b"}, {Dir: "c"}},
+			Ops: []opIn{run, run, run, {K: "run", All: true, Force: true, Entry: []int{0}}, run, {K: "set", P: 1, File: "x1.go", V: 8},
+				{K: "run", All: true, Force: true, Entry: []int{0}}, {K: "run", All: true, Entry: []int{0}}, {K: "run", All: true, Force: true, Entry: []int{0, 2}},
+				{K: "run", Force: true, Entry: []int{0}}, run}},
+		{Mod: "example.com/m", Pkgs: []pkgDecl{{Dir: ".", Imports: []int{1, 2}}, {Dir: "a", Imports: []int{2}}, {Dir: "a/sub"}},
+			Ops: []opIn{run, run, run, {K: "run", All: true, Force: true, Entry: []int{1}}, {K: "run", All: true, Force: true, Entry: []int{0}}, run}},
 		// stale output trusted after the generated file is put back (not claimed otherwise)
 		{Mod: "example.com/m", Pkgs: []pkgDecl{{Dir: "a"}}, Ops: []opIn{{K: "set", P: 0, File: genFile, V: 3}, run, run, {K: "restoregen", P: 0}, run}},
 		// the tagged type disappears: the generated file is removed
@@ -308,6 +389,52 @@ func exhaustive() []json.RawMessage {
 	return out
 }
 
+// exhaustiveForceSubset: a imports b; after two plain All runs (b's recorded hash is current) every history of
+// length <= 3 that ends in a run, over {edit a, edit b, run All, run All+Force, run All on a only, run All+Force on a only}
+func exhaustiveForceSubset() []json.RawMessage {
+	type sym struct {
+		op   opIn
+		edit int
+	}
+	alphabet := []sym{
+		{edit: 1}, {edit: 2},
+		{op: opIn{K: "run", All: true}},
+		{op: opIn{K: "run", All: true, Force: true}},
+		{op: opIn{K: "run", All: true, Entry: []int{0}}},
+		{op: opIn{K: "run", All: true, Force: true, Entry: []int{0}}},
+	}
+	var out []json.RawMessage
+	var rec func(prefix []sym)
+	emit := func(h []sym) {
+		plain := opIn{K: "run", All: true}
+		in := input{Mod: "example.com/m", Pkgs: []pkgDecl{{Dir: "a", Imports: []int{1}}, {Dir: "b"}}, Ops: []opIn{plain, plain}}
+		v := 1
+		for _, s := range h {
+			if s.edit > 0 {
+				v++
+				in.Ops = append(in.Ops, opIn{K: "set", P: s.edit - 1, File: "x1.go", V: 2 * v})
+			} else {
+				in.Ops = append(in.Ops, s.op)
+			}
+		}
+		b, _ := json.Marshal(in)
+		out = append(out, b)
+	}
+	rec = func(prefix []sym) {
+		if n := len(prefix); n > 0 && prefix[n-1].op.K == "run" {
+			emit(prefix)
+		}
+		if len(prefix) == 3 {
+			return
+		}
+		for _, s := range alphabet {
+			rec(append(append([]sym{}, prefix...), s))
+		}
+	}
+	rec(nil)
+	return out
+}
+
 func (prop) Generate(r *core.RNG, tier string) []json.RawMessage {
 	nHist, nSum := 100, 300
 	if tier == "thorough" {
@@ -322,6 +449,8 @@ func (prop) Generate(r *core.RNG, tier string) []json.RawMessage {
 			kind = "malformed"
 		case k < 37:
 			kind = "converge"
+		case k < 49:
+			kind = "forcesubset"
 		}
 		out = append(out, g.history(kind))
 	}
@@ -330,13 +459,14 @@ func (prop) Generate(r *core.RNG, tier string) []json.RawMessage {
 	}
 	if tier == "thorough" {
 		out = append(out, exhaustive()...)
+		out = append(out, exhaustiveForceSubset()...)
 	}
 	return out
 }
 
 func (prop) Extra(r *core.RNG, tier string, scratch string) ([]string, []string, map[string]any) {
 	stats := map[string]any{"exhaustive": tier == "thorough",
-		"exhaustive_scope": "thorough: every history of length <= 4 that ends in a run, over 2 packages and the alphabet {edit a, edit b, delete gengo.sum, drop its first line, run All, run All+Force, run All failing in b, run All on entrypoint a only, run without All}"}
+		"exhaustive_scope": "thorough: every history of length <= 4 that ends in a run, over 2 packages and the alphabet {edit a, edit b, delete gengo.sum, drop its first line, run All, run All+Force, run All failing in b, run All on entrypoint a only, run without All}; and, with a importing b, after two plain All runs every history of length <= 3 that ends in a run over {edit a, edit b, run All, run All+Force, run All on a only, run All+Force on a only}"}
 	// The deliberate NON-claim (DESIGN.md, C08): cache transparency.  The recorded hash is the one of the state a run
 	// STARTED from, so putting that state back (sources + an older generated file) is trusted.  Shown, not judged.
 	run := opIn{K: "run", All: true}
